@@ -251,6 +251,29 @@ def exhaustive_lines():
                 yield "concat %s %s %d" % (a, b, ax)
 
 
+def batch_rule_lines():
+    """Every rule with several operands x every assignment of batch sizes in {1,2,3}
+    (equal-or-1 is admissible, anything else must be rejected), 2-4 operands for the
+    list rules; the first operand batch 1 followed by two different batches included."""
+    out = []
+    bs = (1, 2, 3)
+    for b1 in bs:
+        for b2 in bs:
+            out.append("elementwise %s %s" % (tok([2, 3], b1), tok([2, 3], b2)))
+            out.append("scalar_op %s %s" % (tok([2, 3], b1), tok([], b2)))
+            out.append("matmul %s %s" % (tok([2, 3], b1), tok([3, 2], b2)))
+            out.append("conv2d %s %s 0 0 1 1 1 1" % (tok([3, 3, 2], b1), tok([2, 2, 2, 3], b2)))
+            out.append("reshape %s %s" % (tok([2, 3], b1), tok([3, 2], b2)))
+            for ids in ((0,), (0, 1), (0, 1, 1)):
+                out.append("pick %s 0 %s" % (tok([2, 3], b1), " ".join(map(str, ids))))
+    for k in (2, 3, 4):
+        for combo in itertools.product(bs, repeat=k):
+            for dim in (0, 1, 2):
+                out.append("concat %s %d" % (" ".join(tok([2, 2], b) for b in combo), dim))
+            out.append("batch_concat " + " ".join(tok([2, 2], b) for b in combo))
+    return out
+
+
 def finding_key(line, impl):
     """Canonical identification of a failing call: the rule and the way it fails."""
     return "shape:%s" % line
@@ -274,6 +297,9 @@ def run(chk):
             seen.add(l); lines.append(l)
     corpus = [l.strip() for l in open(build.VERIF + "/corpus/shape.ops")] if __import__("os").path.exists(build.VERIF + "/corpus/shape.ops") else []
     lines = [l for l in corpus if l and not l.startswith("#")] + lines
+    for l in batch_rule_lines():
+        if l not in seen:
+            seen.add(l); lines.append(l)
     if not quick:
         for l in exhaustive_lines():
             if l not in seen:
@@ -328,3 +354,23 @@ def classify(line, impl, spec):
     else:
         cls = "wrong-result"
     return "shape:%s:%s:%s" % (op, cls, line)
+
+
+def run_batch_rules(chk, prefix="shape"):
+    """Batch-compatibility of every multi-operand shape rule on the real library vs the
+    specification (used by C03 and C10)."""
+    lines = batch_rule_lines()
+    spec = dict(zip(lines, vrun.run_model("shapespec", lines)))
+
+    def judge(line, impl, model):
+        if impl.startswith("crash"):
+            return "call crashes (%s)" % impl
+        if impl != spec[line]:
+            return "implementation returns `%s`, the specification says `%s`" % (impl, spec[line])
+        return None
+
+    dis, judged, crashes = chk.correspond("shape", "h_shape", [lines], stateful=False, judge=judge)
+    for j in judged:
+        chk.report(classify(j["line"], j["impl"], spec[j["line"]]), "%s: %s" % (j["line"], j["what"]),
+                   {"family": "shape", "harness": "h_shape", "lines": [j["line"]], "expected_spec": spec[j["line"]],
+                    "observed_impl": j["impl"], "model": j["model"]})
